@@ -188,8 +188,9 @@ class Ctx:
             "wall_s": round(wall, 2),
             "violations": len(real),
         }
-        with open(os.path.join(EVID, self.pid + ".json"), "w") as f:
-            json.dump(ev, f, indent=1)
+        if self.replay is None:   # a --replay run re-executes one case: it is not a coverage run
+            with open(os.path.join(EVID, self.pid + ".json"), "w") as f:
+                json.dump(ev, f, indent=1)
         for l in lines:
             print(l)
         print("%s %s tier=%s seed=%d obligations=%d/%d corr=%d (disagree %d) explored=%d "
